@@ -131,6 +131,16 @@ def workload(seed):
             out['coloured_traces'].append('<no escape sequence in the coloured output>')
     except Exception as x:
         out['coloured_traces'] = [f'<raised {type(x).__name__}: {x}>']
+    # the command line on the same dumps (plain and coloured traces, events, callstacks)
+    from vlib import cli
+    for label, blob in (('listed', cdata), ('dump', data)):
+        for cmd, kw in (('traces', {'color': False}), ('traces', {'color': True}), ('kevents', {}), ('callstacks', {})):
+            try:
+                text, exc, _ = cli.run(cmd, blob, show_tid=True, **kw)
+                out[f'cli_{cmd}_{"colour" if kw.get("color") else "plain"}_{label}'] = \
+                    text.split('\n') if exc is None else [f'<raised {type(exc).__name__}: {exc}>']
+            except Exception as x:
+                out[f'cli_{cmd}_{label}'] = [f'<harness {type(x).__name__}: {x}>']
     # wall-clock timestamps: the caller supplies the time base and the time zone, the host's TZ must not matter
     from datetime import timezone, timedelta
     pw = PyKdebugParser()
